@@ -5,6 +5,7 @@ import Ptn.C04.ValueCentre
 import Ptn.C04.CentreModel
 import Ptn.C04.ValueShortcut
 import Ptn.C04.ValueReroot
+import Ptn.C04.ValueSandwich
 import Ptn.C06.Demo
 /-! Property theorems for C04: the leg-graph theorems are in `Core.lean` (core Lean only), the value-level
 theorem in `Value.lean` (over `Ptn/Common/Einsum*.lean`, single Mathlib modules).  This file only adds the
@@ -532,5 +533,101 @@ example : KetLocal demoIsoKv (.node 1 [.node 0 []]) ∧ BraLocal demoIsoBv (fun 
     rcases he with rfl | rfl <;> intro σ τ h <;> simp only [demoIsoBv]
     · rw [h (Leg.gBra 1 0) (by simp [gBraT, T.fresh, Node.nbrs]), h (Leg.gBraPhys 1) (by simp [gBraT, T.fresh, Node.nbrs])]; simp
     · rw [h (Leg.gBra 0 1) (by simp [gBraT, T.fresh, Node.nbrs]), h (Leg.gBraPhys 0) (by simp [gBraT, T.fresh, Node.nbrs])]; simp
+
+/-! ### the centre shortcut of `single_site_operator_expectation_value` (operator sandwich at the centre, B64) -/
+
+/-- **`BondDims` follows from the isometry hypothesis of the re-rooted tree**: `IsoKids … c ks` contains, per edge,
+the equality of the dimensions of both ends in both layers; the edges of `t` are those of its re-rooting, possibly
+turned around. -/
+theorem bond_dims_of_iso_kids {R : Type} [CommSemiring R] (kv bv : Nat → Asg Leg → R) (dim : Leg → Nat) (t : Tree)
+    (c : Nat) (ks : List Tree) (hr : Rerooted t (.node c ks)) (hiso : IsoKids kv bv dim c ks) : BondDims dim t :=
+  c04_bondDims_of_isoKids kv bv dim t c ks hr hiso
+
+/-- `scalar_product_centre_shortcut` without the hypothesis `BondDims dim t` (it is `bond_dims_of_iso_kids`). -/
+theorem scalar_product_centre_shortcut_iso {R : Type} [CommSemiring R] (t : Tree) (hnd : t.ids.Nodup)
+    (braKids : Nat → List Nat) (hperm : ∀ e ∈ Tree.info none t, (braKids e.1).Perm e.2.2)
+    (kv bv : Nat → Asg Leg → R) (hkv : KetLocal kv t) (hbv : BraLocal bv braKids t)
+    (dim : Leg → Nat)
+    (c : Nat) (ks : List Tree) (hr : Rerooted t (.node c ks)) (hiso : IsoKids kv bv dim c ks) :
+    ∃ binds, contractTwoTtns (netOf t (fun _ ks => ks) gKetT) (netOf t (fun i _ => braKids i) gBraT)
+        = some ⟨[], binds⟩ ∧
+      (∃ e : Expr Leg R, Built ⟨[], binds⟩ e ∧ e.leaves.Perm (ssLeaves braKids kv bv none t)) ∧
+      ∀ e : Expr Leg R, Built ⟨[], binds⟩ e → e.leaves.Perm (ssLeaves braKids kv bv none t) →
+        ∀ σ : Asg Leg,
+          e.eval dim σ = netValue dim (physPair c :: downPairs c ks) [kv c, bv c] σ ∧
+          sumPairs dim (physPairs t)
+            (fun τ => (ketExpr kv t).eval dim τ * (braExpr bv braKids t).eval dim τ) σ =
+            netValue dim (physPair c :: downPairs c ks) [kv c, bv c] σ :=
+  scalar_product_centre_shortcut t hnd braKids hperm kv bv hkv hbv dim
+    (bond_dims_of_iso_kids kv bv dim t c ks hr hiso) c ks hr hiso
+
+/-- **The single-site operator sandwich at the orthogonality centre is the centre-only contraction `Σ C·O·Cc`.**
+For every tree `t` as rooted (distinct identifiers, any child order of the bra network, any commutative semiring, all
+dimensions, node tensors `kv i` / `bv i` reading only their own legs), every node `c` (`node c ks` any re-rooting of
+`t`, `reroot_exists`), every operator tensor `O` reading only its two legs `gOpOut c`, `gOpIn c`, GIVEN that every
+node other than `c` is an isometry toward `c` in index form (`IsoKids … c ks`, what C03 `canonical_form` establishes):
+the two-layer network of the loop with `O` inserted between the physical legs of `c` - record `sandwichSpec c t` =
+`ssSpec t` with the physical pair of `c` replaced by `(gKetPhys c, gOpIn c)`, `(gOpOut c, gBraPhys c)`; tensors: `O`
+and the tensors of all nodes of both layers - has the value of the three tensors `C = kv c`, `O`, `Cc = bv c` alone,
+summed over those two pairs and one common index per bond of the centre:
+`np.tensordot(np.tensordot(C, O, (phys, in)), C.conj(), (all, all))`, the shortcut of
+`single_site_operator_expectation_value`.  And EVERY strongly well-formed program (any nesting of `tensordot` calls)
+with that record and those tensors evaluates to it. -/
+theorem single_site_expectation_centre_shortcut {R : Type} [CommSemiring R] (t : Tree) (hnd : t.ids.Nodup)
+    (braKids : Nat → List Nat) (hperm : ∀ e ∈ Tree.info none t, (braKids e.1).Perm e.2.2)
+    (kv bv : Nat → Asg Leg → R) (hkv : KetLocal kv t) (hbv : BraLocal bv braKids t)
+    (dim : Leg → Nat)
+    (c : Nat) (ks : List Tree) (hr : Rerooted t (.node c ks)) (hiso : IsoKids kv bv dim c ks)
+    (O : Asg Leg → R) (hO : DependsOn (· ∈ [Leg.gOpOut c, Leg.gOpIn c]) O) :
+    (∀ σ : Asg Leg, netValue dim (sandwichSpec c t) (O :: (ssLeaves braKids kv bv none t).map Prod.snd) σ =
+        netValue dim (opPairs c ++ downPairs c ks) [kv c, O, bv c] σ) ∧
+    ∀ e : Expr Leg R, e.SWF → e.binds.Perm (sandwichSpec c t) →
+      (e.leaves.map Prod.snd).Perm (O :: (ssLeaves braKids kv bv none t).map Prod.snd) →
+      ∀ σ : Asg Leg, e.eval dim σ = netValue dim (opPairs c ++ downPairs c ks) [kv c, O, bv c] σ := by
+  have hnd2 : (Expr.pairLegs (ssSpec t)).Nodup := by
+    obtain ⟨binds, hrun, ⟨e, hb, hl⟩, hall⟩ := contract_two_ttns_value t hnd braKids hperm kv bv hkv hbv
+    obtain ⟨hswf, hbinds, _, _⟩ := hall e hb hl
+    have hspec : binds.Perm (ssSpec t) := by
+      obtain ⟨b', hrun', hb'⟩ := contract_two_ttns_graph t hnd braKids hperm
+      rw [hrun] at hrun'
+      injection hrun' with h
+      injection h with _ h2
+      rw [h2]; exact hb'
+    have hrec := hbinds.trans hspec
+    have hp : (Expr.pairLegs e.binds).Perm (Expr.pairLegs (ssSpec t)) :=
+      List.Perm.append (hrec.map _) (hrec.map _)
+    exact hp.nodup_iff.1 (Expr.binds_nodup e hswf)
+  have main := c04_centre_sandwich_netValue kv bv braKids dim t hnd c ks hr
+    (fun x hx => ⟨hkv x hx, hbv x hx, hperm x hx⟩) hiso hnd2 O hO
+  refine ⟨main, ?_⟩
+  intro e he hb hl σ
+  rw [c04_eval_eq_netValue dim e he _ _ hb hl σ]
+  exact main σ
+
+/-- an operator on the open leg of the centre `0` that reads both of its legs; with the examples above
+(`Rerooted (node 1 [node 0 []]) (node 0 [node 1 []])`, `IsoKids demoIsoKv demoIsoBv (fun _ => 2) 0 [node 1 []]`,
+`KetLocal` / `BraLocal` on the tree rooted at 1) every hypothesis of `single_site_expectation_centre_shortcut` holds
+with the centre NOT at the root -/
+def demoSandwichOp : Asg Leg → Int := fun σ => (σ (Leg.gOpOut 0) : Int) + 2 * σ (Leg.gOpIn 0) + 1
+
+example : DependsOn (· ∈ [Leg.gOpOut 0, Leg.gOpIn 0]) demoSandwichOp := by
+  intro σ τ h
+  simp only [demoSandwichOp]
+  rw [h (Leg.gOpOut 0) (by simp), h (Leg.gOpIn 0) (by simp)]
+
+/-- the record of the sandwich on the tree `1 - 0` (rooted at 1) with the centre 0 -/
+example : sandwichSpec 0 (.node 1 [.node 0 []]) =
+    [(Leg.gKetPhys 0, Leg.gOpIn 0), (Leg.gOpOut 0, Leg.gBraPhys 0), physPair 1, ketEdge 1 0, braEdge 1 0] := by
+  decide
+
+/-- both sides of `single_site_expectation_centre_shortcut` on that instance, computed: the full sandwich network and
+the centre-only contraction are 160 (not a degenerate value) -/
+example :
+    netValue (fun _ => 2) (sandwichSpec 0 (.node 1 [.node 0 []]))
+      (demoSandwichOp :: (ssLeaves (fun i => if i = 1 then [0] else []) demoIsoKv demoIsoBv none
+        (.node 1 [.node 0 []])).map Prod.snd) (fun _ => 0) = 160 ∧
+    netValue (fun _ => 2) (opPairs 0 ++ downPairs 0 [.node 1 []]) [demoIsoKv 0, demoSandwichOp, demoIsoBv 0]
+      (fun _ => 0) = 160 := by
+  decide +kernel
 
 end Ptn.C04
